@@ -21,603 +21,32 @@ _real_isinstance = builtins.isinstance
 _real_len = builtins.len
 _real_slice = builtins.slice
 
-PLACEHOLDER = "⟨sx⟩"
 
 
-def E():
-    return core.cur
-
-
-def is_term(x):
-    return _real_isinstance(x, z3.ExprRef)
-
-
-# ====================================================================== booleans
-class SBool:
-    __slots__ = ("t",)
-
-    def __init__(self, t):
-        self.t = t
-
-    def __bool__(self):
-        return E().decide(self.t)
-
-    def __eq__(self, o):
-        if _real_isinstance(o, SBool):
-            return mk_bool(self.t == o.t)
-        if _real_isinstance(o, _real_bool):
-            return self if o else mk_bool(z3.Not(self.t))
-        if _real_isinstance(o, (_real_int, SInt)):
-            return as_sint(self) == o
-        return False
-
-    def __ne__(self, o):
-        r = self.__eq__(o)
-        return snot(r)
-
-    def __hash__(self):
-        return hash(_real_bool(self))
-
-    def __and__(self, o):
-        if _real_isinstance(o, (SBool, _real_bool)):
-            return sand(self, o)
-        return as_sint(self) & o
-
-    __rand__ = __and__
-
-    def __or__(self, o):
-        if _real_isinstance(o, (SBool, _real_bool)):
-            return sor(self, o)
-        return as_sint(self) | o
-
-    __ror__ = __or__
-
-    def __invert__(self):
-        return ~as_sint(self)
-
-    def __int__(self):
-        return 1 if _real_bool(self) else 0
-
-    __index__ = __int__
-
-    def __add__(self, o):
-        return as_sint(self) + o
-
-    __radd__ = __add__
-
-    def __lshift__(self, o):
-        return as_sint(self) << o
-
-    def __mul__(self, o):
-        return as_sint(self) * o
-
-    __rmul__ = __mul__
-
-    def __repr__(self):
-        return PLACEHOLDER
-
-    __str__ = __repr__
-
-    def __format__(self, spec):
-        return PLACEHOLDER
-
-
-def mk_bool(t):
-    if _real_isinstance(t, _real_bool):
-        return t
-    t = z3.simplify(t)
-    if z3.is_true(t):
-        return True
-    if z3.is_false(t):
-        return False
-    return SBool(t)
-
-
-def bterm(b):
-    """z3 Bool for a python bool / SBool / z3 term."""
-    if _real_isinstance(b, SBool):
-        return b.t
-    if _real_isinstance(b, _real_bool):
-        return z3.BoolVal(b)
-    if is_term(b):
-        return b
-    if _real_isinstance(b, (SInt, _real_int)):
-        return iterm(b) != 0
-    raise TypeError(f"not a boolean: {type(b)}")
-
-
-def sand(*bs):
-    ts = []
-    for b in bs:
-        if _real_isinstance(b, _real_bool):
-            if not b:
-                return False
-            continue
-        ts.append(bterm(b))
-    if not ts:
-        return True
-    return mk_bool(z3.And(*ts) if len(ts) > 1 else ts[0])
-
-
-def sor(*bs):
-    ts = []
-    for b in bs:
-        if _real_isinstance(b, _real_bool):
-            if b:
-                return True
-            continue
-        ts.append(bterm(b))
-    if not ts:
-        return False
-    return mk_bool(z3.Or(*ts) if len(ts) > 1 else ts[0])
-
-
-def snot(b):
-    if _real_isinstance(b, _real_bool):
-        return not b
-    if b is NotImplemented:
-        return NotImplemented
-    return mk_bool(z3.Not(bterm(b)))
-
-
-def simplies(a, b):
-    return sor(snot(a), b)
-
-
-def site(c, a, b):
-    """if-then-else over ints."""
-    if _real_isinstance(c, _real_bool):
-        return a if c else b
-    ta, tb = iterm(a), iterm(b)
-    la, ha = bounds(a)
-    lb, hb = bounds(b)
-    lo = None if la is None or lb is None else min(la, lb)
-    hi = None if ha is None or hb is None else max(ha, hb)
-    return mk_int(z3.If(bterm(c), ta, tb), lo, hi)
-
-
-# ====================================================================== integers
-def iterm(x):
-    if _real_isinstance(x, SInt):
-        return x.t
-    if _real_isinstance(x, _real_bool):
-        return z3.IntVal(1 if x else 0)
-    if _real_isinstance(x, _real_int):
-        return z3.IntVal(_real_int(x))
-    if _real_isinstance(x, SBool):
-        return z3.If(x.t, z3.IntVal(1), z3.IntVal(0))
-    if is_term(x):
-        return x
-    raise TypeError(f"not an integer: {type(x)}")
-
-
-def bounds(x):
-    if _real_isinstance(x, SInt):
-        return x.lo, x.hi
-    if _real_isinstance(x, SBool):
-        return 0, 1
-    if _real_isinstance(x, _real_int):
-        return _real_int(x), _real_int(x)
-    return None, None
-
-
-def stride(x):
-    if _real_isinstance(x, SInt):
-        return x.m, x.r
-    if _real_isinstance(x, SBool):
-        return 1, 0
-    if _real_isinstance(x, _real_int):
-        return 0, _real_int(x)  # m == 0: constant
-    return 1, 0
-
-
-def mk_int(t, lo=None, hi=None, m=1, r=0):
-    if _real_isinstance(t, _real_int):
-        return t
-    t = z3.simplify(t)
-    if z3.is_int_value(t):
-        return t.as_long()
-    if lo is not None and hi is not None and lo == hi:
-        # value pinned by the abstract domain
-        return lo
-    return SInt(t, lo, hi, m, r)
-
-
-def as_sint(x):
-    if _real_isinstance(x, SInt):
-        return x
-    if _real_isinstance(x, SBool):
-        return SInt(z3.If(x.t, z3.IntVal(1), z3.IntVal(0)), 0, 1)
-    raise TypeError
-
-
-def _num(o):
-    return _real_isinstance(o, (_real_int, SInt, SBool))
-
-
-def _add_b(a, b):
-    return None if a is None or b is None else a + b
-
-
-def _pow2_index(c):
-    """k if c == 2**k - 1 (k >= 1) else None"""
-    if c > 0 and (c & (c + 1)) == 0:
-        return c.bit_length()
-    return None
-
-
-class SInt:
-    __slots__ = ("t", "lo", "hi", "m", "r")
-
-    def __init__(self, t, lo=None, hi=None, m=1, r=0):
-        self.t = t
-        self.lo = lo
-        self.hi = hi
-        self.m = m if m else 1
-        self.r = r % self.m if self.m else r
-
-    # ---- conversions
-    def __bool__(self):
-        if self.lo is not None and self.lo > 0:
-            return True
-        if self.hi is not None and self.hi < 0:
-            return True
-        return E().decide(self.t != 0)
-
-    def __index__(self):
-        return E().concretize(self.t)
-
-    __int__ = __index__
-
-    def __hash__(self):
-        return hash(E().concretize(self.t))
-
-    def __repr__(self):
-        return PLACEHOLDER
-
-    __str__ = __repr__
-
-    def __format__(self, spec):
-        return PLACEHOLDER
-
-    # ---- comparisons
-    def _cmp(self, o, op):
-        if not _num(o):
-            return NotImplemented
-        lo, hi = self.lo, self.hi
-        olo, ohi = bounds(o)
-        if op == "lt":
-            if hi is not None and olo is not None and hi < olo:
-                return True
-            if lo is not None and ohi is not None and lo >= ohi:
-                return False
-            return mk_bool(self.t < iterm(o))
-        if op == "le":
-            if hi is not None and olo is not None and hi <= olo:
-                return True
-            if lo is not None and ohi is not None and lo > ohi:
-                return False
-            return mk_bool(self.t <= iterm(o))
-        if op == "gt":
-            if lo is not None and ohi is not None and lo > ohi:
-                return True
-            if hi is not None and olo is not None and hi <= olo:
-                return False
-            return mk_bool(self.t > iterm(o))
-        if op == "ge":
-            if lo is not None and ohi is not None and lo >= ohi:
-                return True
-            if hi is not None and olo is not None and hi < olo:
-                return False
-            return mk_bool(self.t >= iterm(o))
-        if op == "eq":
-            if (hi is not None and olo is not None and hi < olo) or (
-                lo is not None and ohi is not None and lo > ohi
-            ):
-                return False
-            return mk_bool(self.t == iterm(o))
-        raise AssertionError(op)
-
-    def __lt__(self, o):
-        return self._cmp(o, "lt")
-
-    def __le__(self, o):
-        return self._cmp(o, "le")
-
-    def __gt__(self, o):
-        return self._cmp(o, "gt")
-
-    def __ge__(self, o):
-        return self._cmp(o, "ge")
-
-    def __eq__(self, o):
-        if not _num(o):
-            return False
-        return self._cmp(o, "eq")
-
-    def __ne__(self, o):
-        if not _num(o):
-            return True
-        return snot(self._cmp(o, "eq"))
-
-    # ---- arithmetic
-    def __add__(self, o):
-        if not _num(o):
-            return NotImplemented
-        lo, hi = bounds(o)
-        m2, r2 = stride(o)
-        m = math.gcd(self.m, m2)
-        return mk_int(self.t + iterm(o), _add_b(self.lo, lo), _add_b(self.hi, hi), m, self.r + r2)
-
-    __radd__ = __add__
-
-    def __neg__(self):
-        return mk_int(
-            -self.t,
-            None if self.hi is None else -self.hi,
-            None if self.lo is None else -self.lo,
-            self.m,
-            -self.r,
-        )
-
-    def __pos__(self):
-        return self
-
-    def __abs__(self):
-        if self.lo is not None and self.lo >= 0:
-            return self
-        return mk_int(z3.If(self.t < 0, -self.t, self.t), 0, None)
-
-    def __sub__(self, o):
-        if not _num(o):
-            return NotImplemented
-        return self + (-o if not _real_isinstance(o, SBool) else -as_sint(o))
-
-    def __rsub__(self, o):
-        if not _num(o):
-            return NotImplemented
-        return (-self) + o
-
-    def __mul__(self, o):
-        if _real_isinstance(o, (_real_bytes, _real_str, list, tuple, SBytes, SStr)):
-            return o * _real_int(self)
-        if not _num(o):
-            return NotImplemented
-        if _real_isinstance(o, _real_int):
-            c = _real_int(o)
-            if c == 0:
-                return 0
-            lo = None if self.lo is None else self.lo * c
-            hi = None if self.hi is None else self.hi * c
-            if c < 0:
-                lo, hi = hi, lo
-            return mk_int(self.t * c, lo, hi, self.m * abs(c), self.r * c)
-        lo = hi = None
-        b = bounds(o)
-        if None not in (self.lo, self.hi, b[0], b[1]):
-            cs = [self.lo * b[0], self.lo * b[1], self.hi * b[0], self.hi * b[1]]
-            lo, hi = min(cs), max(cs)
-        return mk_int(self.t * iterm(o), lo, hi)
-
-    __rmul__ = __mul__
-
-    def __floordiv__(self, o):
-        if _real_isinstance(o, _real_int) and not _real_isinstance(o, _real_bool):
-            c = _real_int(o)
-            if c == 0:
-                raise ZeroDivisionError("integer division or modulo by zero")
-            if c > 0:
-                lo = None if self.lo is None else self.lo // c
-                hi = None if self.hi is None else self.hi // c
-                return mk_int(self.t / c, lo, hi)
-            return (-self) // (-c)
-        raise Unsupported("floordiv by a symbolic divisor")
-
-    def __mod__(self, o):
-        if _real_isinstance(o, _real_int) and not _real_isinstance(o, _real_bool):
-            c = _real_int(o)
-            if c > 0:
-                if self.lo is not None and self.hi is not None and 0 <= self.lo and self.hi < c:
-                    return self
-                return mk_int(self.t % c, 0, c - 1)
-        raise Unsupported("mod by a symbolic / non-positive divisor")
-
-    def __divmod__(self, o):
-        return self // o, self % o
-
-    def __lshift__(self, o):
-        if _real_isinstance(o, _real_int):
-            if o < 0:
-                raise ValueError("negative shift count")
-            return self * (1 << _real_int(o))
-        if _real_isinstance(o, (SInt, SBool)):
-            return _shift_sym(self, as_sint(o), True)
-        return NotImplemented
-
-    def __rlshift__(self, o):
-        if _real_isinstance(o, _real_int):
-            return _shift_sym(_real_int(o), self, True)
-        return NotImplemented
-
-    def __rshift__(self, o):
-        if _real_isinstance(o, _real_int):
-            if o < 0:
-                raise ValueError("negative shift count")
-            return self // (1 << _real_int(o))
-        if _real_isinstance(o, (SInt, SBool)):
-            return _shift_sym(self, as_sint(o), False)
-        return NotImplemented
-
-    def __rrshift__(self, o):
-        if _real_isinstance(o, _real_int):
-            return _shift_sym(_real_int(o), self, False)
-        return NotImplemented
-
-    def _bit(self, i):
-        """z3 Int term: bit i (0/1) of self under floor semantics."""
-        if i == 0:
-            return self.t % 2
-        return (self.t / (1 << i)) % 2
-
-    def __and__(self, o):
-        if _real_isinstance(o, _real_int):
-            c = _real_int(o)
-            if c < 0:
-                raise Unsupported("& with a negative constant")
-            if c == 0:
-                return 0
-            k = _pow2_index(c)
-            if k is not None:
-                return self % (1 << k)
-            bits = [i for i in range(c.bit_length()) if (c >> i) & 1]
-            # contiguous run of bits  b..e :  ((x div 2^b) mod 2^(e-b+1)) * 2^b
-            if bits == list(range(bits[0], bits[-1] + 1)):
-                b, n = bits[0], len(bits)
-                return mk_int(((self.t / (1 << b)) % (1 << n)) * (1 << b), 0, c, 1 << b, 0)
-            t = z3.Sum([self._bit(i) * (1 << i) for i in bits])
-            return mk_int(t, 0, c)
-        if _real_isinstance(o, (SInt, SBool)):
-            o = as_sint(o)
-            nb = _common_bits(self, o)
-            t = z3.Sum(
-                [
-                    z3.If(z3.And(self._bit(i) == 1, o._bit(i) == 1), z3.IntVal(1 << i), z3.IntVal(0))
-                    for i in range(nb)
-                ]
-            )
-            hs = [h for h in (self.hi, o.hi) if h is not None]
-            return mk_int(t, 0, min(hs))
-        return NotImplemented
-
-    __rand__ = __and__
-
-    def __or__(self, o):
-        if not _num(o):
-            return NotImplemented
-        if _disjoint_bits(self, o) or _disjoint_bits(o, self):
-            return self + o
-        a = self & o
-        r = self + o - a
-        if _real_isinstance(r, SInt):
-            lo1, hi1 = bounds(self)
-            lo2, hi2 = bounds(o)
-            if lo1 is not None and lo2 is not None and lo1 >= 0 and lo2 >= 0:
-                r.lo = max(lo1, lo2)
-                if hi1 is not None and hi2 is not None:
-                    r.hi = (1 << max(hi1.bit_length(), hi2.bit_length())) - 1
-        return r
-
-    __ror__ = __or__
-
-    def __xor__(self, o):
-        if not _num(o):
-            return NotImplemented
-        a = self & o
-        return self + o - a * 2
-
-    __rxor__ = __xor__
-
-    def __invert__(self):
-        return -self - 1
-
-    def __pow__(self, o):
-        raise Unsupported("pow on a symbolic int")
-
-    def __truediv__(self, o):
-        raise Unsupported("true division on a symbolic int")
-
-    def bit_length(self):
-        raise Unsupported("bit_length on a symbolic int")
-
-    @property
-    def value(self):  # IntEnum-like access used on members
-        return self
-
-    @property
-    def real(self):
-        return self
-
-
-def _disjoint_bits(a, b):
-    """a is a multiple of 2^k (non-negative or not) and 0 <= b < 2^k"""
-    m, r = stride(a)
-    lo, hi = bounds(b)
-    if lo is None or hi is None or lo < 0:
-        return False
-    if m == 0:  # a constant
-        if r < 0:
-            return False
-        m = r & -r if r else 0
-        if r == 0:
-            return True
-        return hi < m
-    if r % m != 0:
-        return False
-    k = m & -m  # largest power of two dividing the stride
-    return hi < k
-
-
-def _common_bits(a, b):
-    his = []
-    for x in (a, b):
-        if x.lo is None or x.lo < 0:
-            continue
-        if x.hi is not None:
-            his.append(x.hi)
-    if not his:
-        raise Unsupported("bitwise operation between two unbounded symbolic ints")
-    # a & b <= min(a, b) for non-negative operands; bits above the smaller bound are zero in it
-    for x in (a, b):
-        if x.lo is None or x.lo < 0:
-            raise Unsupported("bitwise operation with a possibly negative symbolic int")
-    return max(1, min(his).bit_length())
-
-
-def _shift_sym(val, amt, left):
-    """val << amt / val >> amt with a symbolic amount: ITE chain over the feasible amounts."""
-    e = E()
-    if amt.lo is None or amt.lo < 0:
-        if e.decide(amt.t < 0):
-            raise ValueError("negative shift count")
-    lo = max(0, amt.lo or 0)
-    hi = amt.hi
-    if hi is None:
-        raise Unsupported("shift by an unbounded symbolic amount")
-    cands = [k for k in range(lo, hi + 1) if amt.m <= 1 or k % amt.m == amt.r % amt.m]
-    if len(cands) > 300:
-        raise Unsupported(f"shift amount with {len(cands)} candidates")
-    vt = iterm(val)
-    t = None
-    for k in reversed(cands):
-        x = vt * (1 << k) if left else vt / (1 << k)
-        t = x if t is None else z3.If(amt.t == k, x, t)
-    vlo, vhi = bounds(val)
-    if left:
-        rlo = None if vlo is None else (vlo << lo if vlo >= 0 else vlo << hi)
-        rhi = None if vhi is None else (vhi << hi if vhi >= 0 else vhi << lo)
-    else:
-        rlo = None if vlo is None else (vlo >> hi if vlo >= 0 else vlo >> lo)
-        rhi = None if vhi is None else (vhi >> lo if vhi >= 0 else vhi >> hi)
-    return mk_int(t, rlo, rhi)
-
-
-def sym_int(name, lo=None, hi=None):
-    """Fresh named symbolic int registered as an input."""
-    e = E()
-    t = z3.Int(name)
-    if lo is not None:
-        e.axiom(t >= lo)
-    if hi is not None:
-        e.axiom(t <= hi)
-    e.register_input(name, "int", t)
-    return SInt(t, lo, hi)
-
-
-def sym_bool(name):
-    e = E()
-    t = z3.Bool(name)
-    e.register_input(name, "bool", t)
-    return SBool(t)
+from .ints import (  # noqa: E402,F401
+    E,
+    PLACEHOLDER,
+    SBool,
+    SInt,
+    as_sint,
+    bounds,
+    bterm,
+    intval,
+    is_term,
+    iterm,
+    mk_bool,
+    mk_int,
+    mk_lazy,
+    norm,
+    sand,
+    simplies,
+    site,
+    snot,
+    sor,
+    stride,
+    sym_bool,
+    sym_int,
+)
 
 
 # ====================================================================== index helpers
@@ -632,13 +61,14 @@ def clamp_bound(b, n, default):
     if b is None:
         return default
     if _real_isinstance(b, (SInt, SBool)):
-        b = as_sint(b)
-        e = E()
-        eff = z3.If(b.t < 0, z3.If(b.t + n < 0, 0, b.t + n), z3.If(b.t > n, n, b.t))
-        for k in range(0, n + 1):
-            if e.decide(eff == k):
-                return k
-        raise core.PathAbort()
+        b = norm(b)
+        if _real_isinstance(b, (SInt,)):
+            if b.lo is not None and b.hi is not None and b.lo >= 0 and b.hi <= n:
+                return b.__index__()
+            e = E()
+            t = b.t
+            eff = z3.If(t < 0, z3.If(t + n < 0, 0, t + n), z3.If(t > n, n, t))
+            return e.concretize(eff)
     b = b.__index__()
     if b < 0:
         b += n
@@ -672,17 +102,30 @@ def all_concrete(items):
     return True
 
 
-def elem(x):
-    """list element -> python int or SInt (byte range)."""
+def _shared(x, lo, hi):
+    """one SInt object per element term and path, so interval refinements are shared"""
     if _real_isinstance(x, _real_int):
         return x
-    return SInt(x, 0, 255)
+    cache = E().sints
+    k = x.get_id()
+    ent = cache.get(k)
+    if ent is None:
+        s = SInt(x, lo, hi)
+        cache[k] = (x, s)  # the term is kept alive so that its id cannot be reused on this path
+        return s
+    s = ent[1]
+    if s.lo is not None and s.lo == s.hi:
+        return s.lo
+    return s
+
+
+def elem(x):
+    """list element -> python int or SInt (byte range)."""
+    return _shared(x, 0, 255)
 
 
 def celem(x):
-    if _real_isinstance(x, _real_int):
-        return x
-    return SInt(x, 0, 0x10FFFF)
+    return _shared(x, 0, 0x10FFFF)
 
 
 def byte_item(v):
@@ -690,11 +133,16 @@ def byte_item(v):
     if _real_isinstance(v, SBool):
         v = as_sint(v)
     if _real_isinstance(v, SInt):
-        if v.lo is not None and v.hi is not None and v.lo >= 0 and v.hi <= 255:
-            return v.t
-        if E().decide(z3.And(v.t >= 0, v.t <= 255)):
-            return v.t
-        raise ValueError("byte must be in range(0, 256)")
+        if v.lo is not None and v.lo == v.hi:
+            return byte_item(v.lo)
+        if not (v.lo is not None and v.hi is not None and v.lo >= 0 and v.hi <= 255):
+            if not (_real_bool(v >= 0) and _real_bool(v <= 255)):
+                raise ValueError("byte must be in range(0, 256)")
+        t = z3.simplify(v.t)
+        if z3.is_int_value(t):
+            return t.as_long()
+        E().sints.setdefault(t.get_id(), (t, v))
+        return t
     if _real_isinstance(v, _real_int):
         if not 0 <= v <= 255:
             raise ValueError("byte must be in range(0, 256)")
